@@ -297,3 +297,26 @@ theorem relatorAsVector_panic (n : Nat) (w : List Int) (hw : ∃ g ∈ w, ¬ InR
   exact bumpAll_panic w _ (by simpa using hw)
 
 end DSymVerif.Inv
+
+namespace DSymVerif.Inv
+open DSymVerif.SpecC14
+
+/-! ### the same facts at row level -/
+
+theorem expVec_length (n : Nat) (w : List Int) : (expVec n w).length = n := by simp [expVec]
+
+theorem expVec_mul (n : Nat) (a b : List Int) :
+    expVec n (FW.mul a b) = List.zipWith (· + ·) (expVec n a) (expVec n b) := by
+  apply List.ext_getElem
+  · simp [expVec]
+  · intro i h1 h2
+    simp [expVec, expSum_mul]
+
+theorem expVec_inverse (n : Nat) (a : List Int) :
+    expVec n (FW.inverse a) = (expVec n a).map (fun x => -x) := by
+  apply List.ext_getElem
+  · simp [expVec]
+  · intro i h1 h2
+    simp [expVec, expSum_inverse]
+
+end DSymVerif.Inv
